@@ -166,6 +166,11 @@ func (a *pwaligner) fillMatrix_SW() (err error) {
 	var c1, c2 uint8
 	var indexseq1, indexseq2 []int // convert characters to subst matrix positions
 
+	if a.seq1.Length() == 0 || a.seq2.Length() == 0 {
+		err = fmt.Errorf("cannot align an empty sequence")
+		return
+	}
+
 	a.initMatrix(a.seq1.Length(), a.seq2.Length())
 
 	// We convert characters to indices in subst matrices
